@@ -15,6 +15,7 @@ structure Pair (al : AList) (gb gm : String) (ab am : NA) : Prop where
   hm : AnchorIn al gm am
   nb : ab.isMark = false
   mm : am.isMark = true
+  cm : am.ctx = none
   key : am.key = ab.key
 
 section
@@ -23,7 +24,7 @@ include w p
 
 theorem pair_markName : markAnchorName ab = am.name := by
   obtain ⟨as, has, ha⟩ := p.hm
-  rw [markName_of_key (w.shape _ has _ ha) p.mm, p.key]; rfl
+  rw [markName_of_key (w.shape _ has _ ha p.cm) p.mm, p.key]; rfl
 
 theorem pair_paired : paired al ab = true := by
   obtain ⟨as, has, ha⟩ := p.hm
@@ -80,7 +81,7 @@ theorem pair_class (hok : markOK i gm = true) :
 /-- the base-side anchor refers to that class -/
 theorem pair_classOf (hok : markOK i gm = true) : classOf (kmOf i al) ab = some ("MC" ++ am.name) := by
   obtain ⟨as, has, ha⟩ := p.hm
-  have hsm := w.shape _ has _ ha
+  have hsm := w.shape _ has _ ha p.cm
   have hkne : ab.key ≠ "" := by
     rw [← p.key]
     obtain ⟨_, hpk, _⟩ := hsm.mark p.mm
@@ -98,10 +99,10 @@ theorem pair_classOf (hok : markOK i gm = true) : classOf (kmOf i al) ab = some 
       obtain ⟨ey, hey, ay, hay, hayn⟩ := mem_groupNames.mp hy
       obtain ⟨_, _, asx, hasx, hallx, _⟩ := mem_meOf w hex
       obtain ⟨_, _, asy, hasy, hally, _⟩ := mem_meOf w hey
-      obtain ⟨hx1, hx2, _⟩ := hallx ax hax
-      obtain ⟨hy1, hy2, _⟩ := hally ay hay
-      have sx := w.shape _ hasx _ hx1
-      have sy := w.shape _ hasy _ hy1
+      obtain ⟨hx1, hx2, hx3⟩ := hallx ax hax
+      obtain ⟨hy1, hy2, hy3⟩ := hally ay hay
+      have sx := shape_of_mem_markNames w hasx hx1 hx3
+      have sy := shape_of_mem_markNames w hasy hy1 hy3
       rw [← haxn, ← hayn] at hxy ⊢
       rw [keyOfMarkName_eq sx hx2, keyOfMarkName_eq sy hy2] at hxy
       rw [markName_of_key sx hx2, markName_of_key sy hy2, hxy]
